@@ -176,17 +176,17 @@ def qpairs(arr):
 def ser_db(cap, quick=False):
     """db line: the generator's own arrays (exact dyadics) -> find_pent_index / window / map_to_position of the model for dual
     vertices: first vertices cap["sel"] of the unclipped dual, then vertices cap["csel"] of the clipped dual (= the tiling's
-    vertices), and the certificate of the faces cap["fsel"].  Thorough tier: everything; quick tier: 100 random unclipped
-    vertices, 60 random faces and their vertices plus 40 more random tiling vertices (the extracted rational arithmetic
+    vertices), and the certificate of the faces cap["fsel"].  Thorough tier: everything; quick tier: 50 random unclipped
+    vertices, 30 random faces and their vertices plus 20 more random tiling vertices (the extracted rational arithmetic
     costs ~6 ms per vertex)."""
     stars = np.stack([np.cos(cap["angles"]), np.sin(cap["angles"])], axis=1)       # map_to_position's own expressions
     nd, nc = len(cap["dual_pos"]), len(cap["clipped_pos"])
     faces = [f for f in cap["faces"] if len(f) == 4]
     rng = np.random.default_rng([nd, nc, 17])
     pick = lambda n, k: list(range(n)) if (not quick or n <= k) else sorted(rng.choice(n, size=k, replace=False).tolist())
-    cap["sel"] = pick(nd, 100)
-    fsel = [faces[k] for k in pick(len(faces), 60)]
-    cap["csel"] = sorted(set(v for f in fsel for v in f) | set(pick(nc, 40)))
+    cap["sel"] = pick(nd, 50)
+    fsel = [faces[k] for k in pick(len(faces), 30)]
+    cap["csel"] = sorted(set(v for f in fsel for v in f) | set(pick(nc, 20)))
     where = {v: k for k, v in enumerate(cap["csel"])}
     pts = np.concatenate([cap["dual_pos"][cap["sel"]].reshape(-1, 2), cap["clipped_pos"][cap["csel"]].reshape(-1, 2)])
     n1 = len(cap["sel"])
@@ -198,13 +198,13 @@ def ser_db(cap, quick=False):
 
 
 def ser_gv(cap, quick=False):
-    """gv line: starting positions and grid intersections (all of them; quick tier: 120 random ones) of the model grid"""
+    """gv line: starting positions and grid intersections (all of them; quick tier: 60 random ones) of the model grid"""
     B, n = len(cap["angles"]), cap["n"]
     toks = ["gv", str(n), qtok(cap["scaling"])] + qpairs(cap["gradients"]) + qpairs(cap["normals"])
     toks += [str(B)] + [qtok(x) for x in cap["grid_offsets"]]
     pairs = [(b1, b2) for b1 in range(B) for b2 in range(b1 + 1, B)]
     tot = len(pairs) * n * n
-    ks = list(range(tot)) if (not quick or tot <= 120) else sorted(np.random.default_rng([tot, 171]).choice(tot, size=120, replace=False).tolist())
+    ks = list(range(tot)) if (not quick or tot <= 60) else sorted(np.random.default_rng([tot, 171]).choice(tot, size=60, replace=False).tolist())
     cap["gsel"] = ks
     toks.append(str(len(ks)))
     for k in ks:                                                            # the code's loop order: b1 < b2, l1, l2
